@@ -130,4 +130,14 @@ theorem refines_McStateExtra : Refines (SrcBlk.McStateExtra false) mcStateExtra 
       loadBytes_cons, takeBits_zero, takeBits_succ, natOfBits, natToBits, vle_nat_one, lowBit_nat, bind_some_eta, loadRef_cons, special_mk,
       beginParse_mk]
 
+/-! ### shard state -/
+
+theorem nonUnit_mcStateExtra : NonUnit mcStateExtra := by unfold mcStateExtra; tlb_nonunit
+
+theorem refines_ShardStateUnsplit : RefinesP PV (SrcBlk.ShardStateUnsplit false) shardStateUnsplit view_ShardStateUnsplit := by
+  tx_refine [shardStateUnsplit, shardStateUnsplitBody, SrcBlk.ShardStateUnsplit, view_ShardStateUnsplit, refines_ShardIdent.keep,
+    refKP (r := SrcBlk.ShardAccounts) refines_ShardAccounts.toE, Tx.refines_CurrencyCollection.keep, dictRawK libDescr 256,
+    optK refines_BlkMasterInfo nonUnit_blkMasterInfo,
+    optRefK (r := SrcBlk.McStateExtra) refines_McStateExtra nonUnit_mcStateExtra]
+
 end TonVerif.Tlb.Blk
